@@ -15,7 +15,7 @@ RULE = ('seeded pushes of a real file, a BytesIO or a real directory (1-5 regula
         'sync service decodes the stream. Cases with a callback are run again without it and the host packet logs compared. '
         'non-trivial = >= 2 host WRTEs on a sync stream or a directory push; distinct = event-log digests')
 ASSUMPTIONS = ['local filesystem is a real temp dir per process; content is fully generated']
-EXPECT_PROBES = {'all': ['c07_dir_push', 'c07_exact_fit', 'c07_callback', 'c07_multi_wrte', 'c07_file_source', 'c07_reentrant_callback', 'c07_reconnect_other_maxdata', 'c07_positioned_bytesio', 'c07_rejected_push']}
+EXPECT_PROBES = {'all': ['c07_dir_push', 'c07_exact_fit', 'c07_callback', 'c07_multi_wrte', 'c07_file_source', 'c07_reentrant_callback', 'c07_reconnect_other_maxdata', 'c07_positioned_bytesio', 'c07_rejected_push', 'push_closed_without_status', 'c07_subdir_in_source']}
 OWN = ('push-duplicate', 'push-missing', 'push-incomplete', 'push-content', 'push-mode', 'push-mtime', 'push-chunk', 'push-early-return', 'push-extra',
        'callback-count', 'callback-total', 'wrte-over-maxdata', 'cb-changes-wire', 'unexpected-exception', 'timeout-instead-of-result', 'hang', 'no-termination',
        'wrong-exception', 'missing-exception')
@@ -72,6 +72,13 @@ def generate(seed, tier):
             op['decoy'] = g.pick([True, True, 'dirs', False])
             if g.chance(0.3):
                 op['subdirs'] = []
+            if g.chance(0.2):
+                # a sub-directory among the files (listed before, between or after them): push() may refuse it, but every
+                # regular file it does send goes out under its own name
+                op['subdirs'] = ['sub%d' % j for j in range(g.int(1, 2))]
+                for sdn in op['subdirs']:
+                    order.insert(g.int(0, len(order)), sdn)
+                op['may_raise'] = True
             d['cmds']['mkdir ' + path] = {'content': {'size': 0}, 'cuts': []}
         else:
             op['content'] = {'seed': g.int(0, 1 << 30), 'size': _size(g, d['maxdata'], len(path.encode()), op.get('mode', 33272), big), 'alpha': g.pick(['bin', 'bin', 'ff', 'zero'])}
@@ -101,6 +108,17 @@ def generate(seed, tier):
         d['push_fail'] = {'at': g.pick(['send', 'data', 'done', 'done']), 'n': g.int(1, 4), 'reason': g.pick([b'Read-only file system', b'No space left on device', b'']).hex(), 'cut_reason': g.chance(0.3)}
         d['fail_before_okay'] = g.chance(0.4)
         for op in ops:
+            if op.get('cb') == 'reenter':
+                op['cb'] = 'count'
+    elif not reconnect and g.chance(0.06):
+        # ... or answers nothing at all: after DONE the sync service dies and the device closes the stream. No sync OKAY, so no normal return
+        d['push_close'] = {'after': 'done'}
+        for op in ops:
+            op.update({'rt': 1.0, 'tt': 0.5, 'expect_timeout': True})
+            op.pop('to', None)
+            if op.pop('may_raise', None):
+                op['order'] = [n for n in op['order'] if n not in op['subdirs']]
+                op['subdirs'] = []
             if op.get('cb') == 'reenter':
                 op['cb'] = 'count'
     cfg = S.gen_config(g, 2000)
@@ -141,6 +159,8 @@ def evaluate(case, tapes=None):
         pr['c07_reconnect_other_maxdata'] = 1
     if any(op.get('src_pos') for op in ops):
         pr['c07_positioned_bytesio'] = 1
+    if any(op.get('subdirs') for op in ops):
+        pr['c07_subdir_in_source'] = 1
     if scn['device'].get('push_fail') and any(not r['ok'] and r['op'] == 'push' for r in run.results[0]):
         pr['c07_rejected_push'] = 1
     if any(op.get('cb') == 'reenter' for op in ops) and scn['api'] == 'sync':
